@@ -1,3 +1,5 @@
+//go:build verif_c05
+
 package main
 
 // C05 — every written file is a structurally valid OPC/SpreadsheetML package.
